@@ -89,8 +89,8 @@ def h_prio(p0: int, p1: int, p2: int, perm: int, path_sel: int) -> bool:
 
 # ---------------------------------------------------------------- B: full flow
 # "" = "this file must be empty"; "  AAA" differs from "AAA" only by leading whitespace of the whole text
-CONTENTS = ["AAA\n", "", "  AAA\n", "BBB\n", "line1\nline2\nline3\n", "AAA  \n"]
-NCONT = 3 if rt.TIER == "quick" else 6
+CONTENTS = ["AAA\n", "", "  AAA\n", "AAA  \n", "line1\nline2\nline3\n", "BBB\n"]
+NCONT = 3 if rt.TIER == "quick" else 5
 OLDS = [None] + CONTENTS[:NCONT]
 RELOAD = ["yes", "no", "force"]
 PRIOSETS = [(100, 200, 300), (300, 200, 100), (200, 300, 100), (100, 300, 200)]
